@@ -133,6 +133,19 @@ fn find_quotes(tsm: proc_macro2::TokenStream, out: &mut Vec<String>) {
         i += 1;
     }
 }
+/// `proj items`: ndjson {id, src} of Rust source files / modules -> {id, items: [derive inputs found in it]}
+fn items() {
+    let stdin = std::io::stdin();
+    let mut out = BufWriter::new(std::io::stdout());
+    for line in stdin.lock().lines() {
+        let line = line.unwrap();
+        if line.trim().is_empty() { continue; }
+        let rec: Value = serde_json::from_str(&line).expect("ndjson");
+        let mut v = vec![];
+        if let Ok(f) = syn::parse_str::<syn::File>(rec["src"].as_str().unwrap_or("")) { walk_items(&f.items, &mut v); }
+        writeln!(out, "{}", json!({"id": rec["id"], "items": v})).unwrap();
+    }
+}
 /// `proj extract <repo>`: every derive input that exists in the repository, as ndjson {id, origin, src}
 fn extract(repo: &str) {
     let mut out = BufWriter::new(std::io::stdout());
@@ -246,6 +259,7 @@ fn main() {
     let args: Vec<String> = std::env::args().collect();
     if args.len() >= 2 && args[1] == "rewrite" { rewrite_all(); return; }
     if args.len() >= 3 && args[1] == "extract" { extract(&args[2]); return; }
+    if args.len() >= 2 && args[1] == "items" { items(); return; }
     let stdin = std::io::stdin();
     let mut out = BufWriter::new(std::io::stdout());
     for line in stdin.lock().lines() {
